@@ -13,7 +13,7 @@ from ..lib import canon_rankings
 
 ID = "C05"
 ENVS = ["absent", "present", "broken", "present"]
-RUNS = {"quick": 6400, "thorough": 64000}
+RUNS = {"quick": 8000, "thorough": 80000}
 RULE = ("case = (dataset, valid dyadic scheme) solved by every exact entry point available in the cell's cplex "
         "environment; distinct = distinct case digest; non-trivial = at least one ILP was really built and solved "
         "(a component that cannot be all-tied reached CBC or the stand-in) and compared with the brute-force optimum")
@@ -36,15 +36,22 @@ def gen_case(st, tier, env):
         n_max = 7 if env != "present" else 6
     if tier == "thorough" and env != "present" and k.random() < 0.04:
         n_max = 9  # value-only oracle (subset DP); the free solver handles 108 binaries
-    if fam < 0.12:
-        ds = gen.gen_cyclic_blocks_dataset(w, sizes=w.choice([[3], [4], [3, 2], [3, 3], [4, 2]]))
-    elif fam < 0.35:
+    cyc_share = 0.3 if env == "present" else 0.15  # the CPLEX classes only build an ILP on non-tieable components
+    cyclic = fam < cyc_share
+    if cyclic:
+        ds = gen.gen_cyclic_blocks_dataset(w, sizes=w.choice([[3], [4], [3, 2], [3, 3], [4, 2], [3], [4]]),
+                                           prefer_colliding=(env == "present" and k.random() < 0.5))
+    elif fam < cyc_share + 0.2:
         ds = gen.gen_sparse_dataset(w, n_max=n_max)
-    elif fam < 0.45:
+    elif fam < cyc_share + 0.3:
         ds = gen.gen_dataset(w, n_max=n_max, m_max=6, complete=True)
     else:
         ds = gen.gen_dataset(w, n_max=n_max, m_max=6, n_min=2)
     scheme = gen.gen_scheme(w, dyadic=True)
+    if cyclic and k.random() < 0.5:
+        # on a majority cycle the interesting regime is a tie cost between a third and a half of an inversion
+        scheme = gen.preset(k.choice(["pseudo", "unifying", "induced"]), k.choice([0.34, 0.375, 0.4, 0.42, 0.44, 0.5, 0.3]))
+        scheme["family"] = "preset/cycle-band"
     if env != "present" and k.random() < 0.08:
         # near-equal penalties (differences 3e-4 .. 5e-4): only on the free-solver path, whose comparisons are all
         # strict; the CPLEX model builder has a documented 1e-3 precision threshold of its own (DESIGN.md, limits)
